@@ -92,7 +92,7 @@ func (x *Exec) setResult(st *State, ret ssa.Value, res []Val) {
 func (x *Exec) dispatch(st *State, fn *ssa.Function, args []Val, cl *Closure, ret ssa.Value, site ssa.Instruction) {
 	key := funcKey(fn)
 	x.pendingClosure = cl
-	if spec, ok := x.eng.funcSpecs[key]; ok && fn != x.fn && !(x.eng.inlineAll) {
+	if spec, ok := x.eng.funcSpecs[key]; ok && fn != x.fn && !(x.eng.inlineAll) && spec.IsFunctional() {
 		x.applyContract(st, spec, fn, args, ret, site)
 		return
 	}
@@ -104,7 +104,7 @@ func (x *Exec) dispatch(st *State, fn *ssa.Function, args []Val, cl *Closure, re
 // callByKey handles builtins (assumed contracts), interface-method contracts, inlining and the fallback.
 func (x *Exec) callByKey(st *State, key string, fn *ssa.Function, args []Val, results *types.Tuple, ret ssa.Value, site ssa.Instruction) bool {
 	if fn == nil {
-		if spec, ok := x.eng.funcSpecs[key]; ok {
+		if spec, ok := x.eng.funcSpecs[key]; ok && spec.IsFunctional() {
 			x.applyContract(st, spec, nil, args, ret, site)
 			return true
 		}
@@ -132,6 +132,12 @@ func (x *Exec) callByKey(st *State, key string, fn *ssa.Function, args []Val, re
 	}
 	if fn != nil && fn.Blocks == nil && isInlineableExternal(key) && fn.Pkg != nil {
 		fn.Pkg.Build()
+	}
+	if fn != nil && fn.Blocks != nil && inRepo(fn) && x.eng.sweepLoops && hasLoop(fn) {
+		x.checkCalleeLocks(st, fn, key)
+		x.assumeNote("sweep: calls to repository functions that contain loops and have no contract are summarised as opaque (the callee is swept on its own)")
+		x.setResult(st, ret, x.symbolicResults(st, results, "opaque"))
+		return true
 	}
 	if fn != nil && fn.Blocks != nil && (inRepo(fn) || isInlineableExternal(key)) {
 		if len(st.frames) >= maxInlineDepth {
@@ -164,6 +170,20 @@ func (x *Exec) callByKey(st *State, key string, fn *ssa.Function, args []Val, re
 			}
 		}
 		x.setResult(st, ret, res)
+		return true
+	}
+	if fn == nil {
+		// interface method without a model: opaque call
+		x.usedSpecs["opaque-interface-call:"+key] = true
+		x.assumeNote("A-opaque-iface: calls through interfaces without a contract (" + key + " ...) return arbitrary values and are assumed not to touch contract-visible state")
+		st.addEvent(Event{Kind: "icall:" + key, Args: args})
+		x.setResult(st, ret, x.symbolicResults(st, results, "icall"))
+		return true
+	}
+	if !inRepo(fn) {
+		x.usedSpecs["opaque-external-call:"+key] = true
+		x.assumeNote("A-opaque-ext: external functions without a model return arbitrary values and are assumed not to touch contract-visible state")
+		x.setResult(st, ret, x.symbolicResults(st, results, "ext"))
 		return true
 	}
 	unsupp("call to %s has no contract, model or body", key)
@@ -257,6 +277,7 @@ func (x *Exec) applyContract(st *State, spec *FuncSpec, fn *ssa.Function, args [
 			unsupp("slice-element pointer passed to contracted function %s", spec.Key)
 		}
 	}
+	x.checkCalleeLocks(st, fn, spec.Key)
 	vars := x.specParams(spec, fn, args)
 	env := x.newEnv(st, spec, vars)
 	// lets bind pre-state values: evaluate them now
@@ -392,10 +413,42 @@ func (x *Exec) applyCallsSpec(st *State, spec *FuncSpec, cs *CallsSpec, vars map
 		st.assume(cenv.evalBool(w.X))
 	}
 	if fv.Fn != nil {
+		// the callback runs while the callee holds the declared locks
+		var pushed []HeldLock
+		if recv, ok := vars[recvName(fn)]; ok {
+			for _, hspec := range cs.Holding {
+				name, mode := hspec, "R"
+				if k := strings.Index(hspec, ":"); k >= 0 {
+					name, mode = hspec[:k], strings.ToUpper(hspec[k+1:])
+				}
+				hl := HeldLock{Field: typeName(ptrElem(recv.Typ)) + "." + name, Ref: recv.T(), Mode: mode}
+				pushed = append(pushed, hl)
+				st.held = append(st.held, hl)
+			}
+		}
 		x.dispatchClosure(st, fv.Fn, cargs)
+		if len(pushed) > 0 {
+			st.top().cont = func(s2 *State, _ []Val) {
+				for _, hl := range pushed {
+					for i := len(s2.held) - 1; i >= 0; i-- {
+						if s2.held[i].Field == hl.Field && s2.held[i].Ref.S == hl.Ref.S && s2.held[i].Mode == hl.Mode {
+							s2.held = append(s2.held[:i], s2.held[i+1:]...)
+							break
+						}
+					}
+				}
+			}
+		}
 		return
 	}
 	st.addEvent(Event{Kind: "callfn", Args: append([]Val{fv}, cargs...)})
+}
+
+func recvName(fn *ssa.Function) string {
+	if fn != nil && fn.Signature.Recv() != nil && len(fn.Params) > 0 {
+		return fn.Params[0].Name()
+	}
+	return "recv"
 }
 
 func (x *Exec) dispatchClosure(st *State, cl *Closure, args []Val) {
@@ -711,4 +764,18 @@ func (x *Exec) variadicElems(st *State, s Val) ([]Val, bool) {
 		out = append(out, st.load(p))
 	}
 	return out, true
+}
+
+func hasLoop(fn *ssa.Function) bool {
+	for _, b := range fn.Blocks {
+		for _, s := range b.Succs {
+			if s.Dominates(b) {
+				return true
+			}
+		}
+	}
+	for _, a := range fn.AnonFuncs {
+		_ = a
+	}
+	return false
 }
